@@ -487,7 +487,9 @@ class BaseModelCrossSet(BaseModel):
         # Inverse transform Y
         Y = self.whitener2.inverse_transform_scores_unseen(Y)
         Y = self.pca2.inverse_transform_scores_unseen(Y)
-        Y = self.preprocessor2.inverse_transform_scores_unseen(Y)
+        # The predicted scores belong to the samples of X: restore the sample
+        # dimensions with the bookkeeping of the X preprocessor, which has just seen them
+        Y = self.preprocessor1.inverse_transform_scores_unseen(Y)
 
         return Y
 
